@@ -3,33 +3,50 @@
    Every theorem is about  w = reach scripts started sig0 sem0 sched  =  the state of the model
    (SyncModel.v: libnstd's five classes as programs of primitive calls, on Sched.v: pthread mutex /
    condition variable / POSIX semaphore / create / join) after ANY list of scheduler moves
-   (Run t | Spurious t | Timeout t | Clock n | Rotate c), for any number of threads, any scripts of
-   library calls, any initial signal state and any initial semaphore value >= 0.  [trace w] is the
+   (Run t | Spurious t | Timeout t | TimeoutSteal t | Clock n | Rotate c), for any number of threads, any
+   scripts of library calls, any initial signal state and any initial semaphore value >= 0.  [trace w] is the
    history of library-call returns (newest first); SyncSpec.v translates the property text into
-   predicates over that history.
+   predicates over that history.  TimeoutSteal is the POSIX-permitted race in which a pthread_cond_timedwait
+   reports ETIMEDOUT although a signal / broadcast has already been directed at it (the wake-up is consumed).
 
-   clause of the property                                             theorem
-   ------------------------------------------------------------------------------------------------------
-   Mutex admits one thread at a time                                   mutex_history_exclusive, mutex_one_holder
-   ... re-entrantly for its owner                                      mutex_reentrant
-   tryLock never blocks                                                trylock_never_blocks, trylock_enabled
-   tryLock succeeds when the mutex is free (iff free or own)           trylock_succeeds_iff
-   Semaphore: successful waits <= initial + signals                    semaphore_conserved
-   no waiter stays blocked while the count is positive                 semaphore_no_waiter_blocked_while_positive
-   Signal: wait true only if set since last reset                      signal_wait_true_only_if_set
-   no waiter stays blocked while it remains set                        signal_no_waiter_blocked_while_set
-   set releases all current waiters                                    signal_set_releases_all_waiters
-   successful Monitor waits never outnumber set() calls                monitor_waits_le_sets
-   a set() after a waiter took the monitor releases a waiter           monitor_set_releases_a_waiter,
+   clause of the property                                             theorem                                    about
+   ----------------------------------------------------------------------------------------------------------------------------
+   Mutex admits one thread at a time                                   mutex_history_exclusive, mutex_one_holder   [P]
+   ... re-entrantly for its owner                                      mutex_reentrant                             [P]
+   tryLock never blocks                                                trylock_never_blocks, trylock_enabled       [P]
+   tryLock succeeds when the mutex is free (iff free or own)           trylock_succeeds_iff                        [P]
+   Semaphore: successful waits <= initial + signals                    semaphore_conserved                         [P]
+   no waiter stays blocked while the count is positive                 semaphore_no_waiter_blocked_while_positive  [P]
+   Signal: wait true only if set since last reset                      signal_wait_true_only_if_set                [L]
+   no waiter stays blocked while it remains set                        signal_no_waiter_blocked_while_set          [L]
+   set releases all current waiters                                    signal_set_releases_all_waiters             [L]
+   successful Monitor waits never outnumber set() calls                monitor_waits_le_sets                       [L]
+   a set() after a waiter took the monitor releases a waiter           monitor_set_releases_a_waiter,              [L]
                                                                        monitor_woken_waiter_returns_true
-   timed waits return false only after their timeout has expired       timed_wait_false_only_after_timeout,
+   timed waits return false only after their timeout has expired       timed_wait_false_only_after_timeout,        [L]
                                                                        deadline_exact, deadline_is_spec
-   Thread::join returns the function's result after it has finished    join_returns_result_after_finish, thread_result
+   Thread::join returns the function's result after it has finished    join_returns_result_after_finish,           [P]
+                                                                       thread_result
+
+   [L] = a theorem about libnstd's own logic (flag handling, loops, deadline arithmetic) running on the modelled
+         primitives.
+   [P] = a PROPERTY OF THE MODELLED PRIMITIVE as the wrapper uses it: Mutex / Semaphore / Thread add no logic of
+         their own beyond the recursive attribute, the EINTR retry loop and the stored handle, so these
+         theorems restate (trylock_never_blocks literally) or follow in a few steps from the rules of
+         Sched.v for pthread_mutex_* (recursive) / sem_* / pthread_create / pthread_join; what they add is
+         that the wrapper reaches those rules with the right arguments in every reachable state.
 
    "stays blocked" is stated as absence of stuck states: whenever the bad configuration holds, a named
    thread has an enabled step that ends it (the schedulers of the model are arbitrary, so no fairness
    is assumed or needed for these statements).
-   The OS primitives themselves are modelled (Sched.v) - trusted base, see level_note of checks/C11.py. *)
+   The OS primitives themselves are modelled (Sched.v) - trusted base, see level_note of checks/C11.py.
+
+   History of the Monitor clause: with TimeoutSteal in the primitive model, Monitor::wait(timeout) as it stood
+   (return false on a non-zero return code without looking at the flag) refutes monitor_set_releases_a_waiter:
+   W1 lock, wait();  W2 lock, wait(10);  S set(): the signal is consumed by the timing-out W2, which returns false
+   and leaves the flag up; W1 stays blocked and no thread is left to release it (corpus/C11/stolen-wakeup.ops,
+   fixes/C11/01-monitor-timedwait-stolen-wakeup.patch).  The model mirrors the repaired code (flag first, then the
+   return code); ex_monitor_stolen_signal below runs that schedule. *)
 From Coq Require Import ZArith List Bool Arith.
 From Sync Require Import Sched SyncSpec SyncModel SyncArith SyncInv SyncTrace SyncSignal SyncTimed SyncMonitor SyncTheorems.
 Import ListNotations.
@@ -115,14 +132,15 @@ Theorem monitor_set_releases_a_waiter : forall scripts started s0 v0 sched, 0 <=
   let w := reach scripts started s0 v0 sched in
   monf w = true -> blocked_on MC (st (ps w) u) = true -> mark w u = true ->
   exists v, ((pc (tc w v) = MonSetUnlock \/ pc (tc w v) = MonSetSignal) /\ enabled w v = true) \/
-            (exists dl dl', st (ps w) v = TWoken MM 0 dl /\ pc (tc w v) = MonWaitCond dl' /\
-                            (is_free (mtx (ps w) MM) = true -> enabled w v = true)).
+            (exists rc dl dl', st (ps w) v = TWoken MM rc dl /\ pc (tc w v) = MonWaitCond dl' /\
+                               (is_free (mtx (ps w) MM) = true -> enabled w v = true)).
 Proof. exact monitor_set_releases_a_waiter_l. Qed.
 Print Assumptions monitor_set_releases_a_waiter.
 
-Theorem monitor_woken_waiter_returns_true : forall scripts started s0 v0 sched, 0 <= v0 -> forall v dl dl',
+(* for every return code rc of the condition wait - 0 or ETIMEDOUT (a timed-out waiter may have consumed the signal) *)
+Theorem monitor_woken_waiter_returns_true : forall scripts started s0 v0 sched, 0 <= v0 -> forall v rc dl dl',
   let w := reach scripts started s0 v0 sched in
-  st (ps w) v = TWoken MM 0 dl -> pc (tc w v) = MonWaitCond dl' -> is_free (mtx (ps w) MM) = true -> monf w = true ->
+  st (ps w) v = TWoken MM rc dl -> pc (tc w v) = MonWaitCond dl' -> is_free (mtx (ps w) MM) = true -> monf w = true ->
   let w' := step w (Run v) in
   monf w' = false /\ exists c, trace w' = EvRet v c 1 :: trace w /\ is_mon_wait c = true.
 Proof. exact monitor_woken_waiter_returns_true_l. Qed.
@@ -195,6 +213,27 @@ Proof. vm_compute. reflexivity. Qed.
 Example ex_monitor_history :
   trace (reach mon_sc all_started false 0 (runs 0%nat 4%nat ++ runs 1%nat 4%nat ++ runs 0%nat 3%nat))
   = [EvRet 0%nat MonUnlock 0; EvRet 0%nat MonWait 1; EvRet 1%nat MonSet 0; EvMonSet 1%nat; EvRet 0%nat MonLock 0].
+Proof. vm_compute. reflexivity. Qed.
+
+(* the stolen wake-up: W1 = thread 0 waits untimed, W2 = thread 1 waits 10 ms, thread 2 calls set(); the condition
+   queue is rotated so that the signal goes to W2, whose timeout fires at the same moment (TimeoutSteal): W2 is
+   woken with ETIMEDOUT, the flag is up and W1 is still blocked and marked - the premise of
+   monitor_set_releases_a_waiter with the timed-out W2 as the witness; W2 then consumes the flag and returns true *)
+Definition steal_sc := sc3 [MonLock; MonWait; MonUnlock] [MonLock; MonWaitT 10; MonUnlock] [MonSet].
+Definition steal_sched := runs 0%nat 4%nat ++ runs 1%nat 4%nat ++ [Rotate MC] ++ runs 2%nat 4%nat ++ [Clock 10000000; TimeoutSteal 1%nat].
+Definition steal_mid := reach steal_sc all_started false 0 steal_sched.
+Example ex_monitor_stolen_signal_premise :
+  (monf steal_mid, blocked_on MC (st (ps steal_mid) 0%nat), mark steal_mid 0%nat, st (ps steal_mid) 1%nat, pc (tc steal_mid 1%nat))
+  = (true, true, true, TWoken MM ETIMEDOUT (Some (0, 10000000)), MonWaitCond (Some (0, 10000000))).
+Proof. vm_compute. reflexivity. Qed.
+Example ex_monitor_stolen_signal :
+  trace (reach steal_sc all_started false 0 (steal_sched ++ runs 1%nat 1%nat))
+  = [EvRet 1%nat (MonWaitT 10) 1; EvRet 2%nat MonSet 0; EvMonSet 2%nat; EvRet 1%nat MonLock 0; EvRet 0%nat MonLock 0].
+Proof. vm_compute. reflexivity. Qed.
+(* without the steal the same timed waiter times out before set() and returns false: false still means "timed out, flag down" *)
+Example ex_monitor_timeout_false :
+  trace (reach steal_sc all_started false 0 (runs 1%nat 4%nat ++ [Clock 10000000; Timeout 1%nat] ++ runs 1%nat 1%nat))
+  = [EvRet 1%nat (MonWaitT 10) 0; EvTimedFalse 1%nat (MonWaitT 10) 0 10000000; EvRet 1%nat MonLock 0].
 Proof. vm_compute. reflexivity. Qed.
 
 (* Mutex: thread 0 holds it twice (re-entrant), thread 1's tryLock fails and its lock is not enabled *)
